@@ -121,6 +121,10 @@ func InclusionProofToProto(iproof *htree.InclusionProof) *InclusionProof {
 }
 
 func InclusionProofFromProto(iproof *InclusionProof) *htree.InclusionProof {
+	if iproof == nil {
+		return nil
+	}
+
 	return &htree.InclusionProof{
 		Leaf:  int(iproof.Leaf),
 		Width: int(iproof.Width),
@@ -211,6 +215,10 @@ func LinearAdvanceProofToProto(proof *store.LinearAdvanceProof) *LinearAdvancePr
 }
 
 func DualProofFromProto(dproof *DualProof) *store.DualProof {
+	if dproof == nil {
+		return nil
+	}
+
 	return &store.DualProof{
 		SourceTxHeader:     TxHeaderFromProto(dproof.SourceTxHeader),
 		TargetTxHeader:     TxHeaderFromProto(dproof.TargetTxHeader),
@@ -224,6 +232,10 @@ func DualProofFromProto(dproof *DualProof) *store.DualProof {
 }
 
 func DualProofV2FromProto(dproof *DualProofV2) *store.DualProofV2 {
+	if dproof == nil {
+		return nil
+	}
+
 	return &store.DualProofV2{
 		SourceTxHeader:   TxHeaderFromProto(dproof.SourceTxHeader),
 		TargetTxHeader:   TxHeaderFromProto(dproof.TargetTxHeader),
@@ -233,6 +245,10 @@ func DualProofV2FromProto(dproof *DualProofV2) *store.DualProofV2 {
 }
 
 func TxHeaderFromProto(hdr *TxHeader) *store.TxHeader {
+	if hdr == nil {
+		return nil
+	}
+
 	return &store.TxHeader{
 		ID:       hdr.Id,
 		PrevAlh:  DigestFromProto(hdr.PrevAlh),
@@ -262,6 +278,10 @@ func TxMetadataFromProto(md *TxMetadata) *store.TxMetadata {
 }
 
 func LinearProofFromProto(lproof *LinearProof) *store.LinearProof {
+	if lproof == nil {
+		return nil
+	}
+
 	return &store.LinearProof{
 		SourceTxID: lproof.SourceTxId,
 		TargetTxID: lproof.TargetTxId,
@@ -276,7 +296,7 @@ func LinearAdvanceProofFromProto(laproof *LinearAdvanceProof) *store.LinearAdvan
 
 	inclusionProofs := make([][][sha256.Size]byte, len(laproof.InclusionProofs))
 	for i, proof := range laproof.InclusionProofs {
-		inclusionProofs[i] = DigestsFromProto(proof.Terms)
+		inclusionProofs[i] = DigestsFromProto(proof.GetTerms())
 	}
 
 	return &store.LinearAdvanceProof{
